@@ -165,12 +165,31 @@ def _fold_guard(prog, fn, test: ast.AST, env: T.Dict[str, T.Any], depth: int = 0
 
 
 def _escape(model: T.Dict[str, T.Any], s: str) -> str:
+    if model.get("eval"):
+        return _escape_by_eval(model, s)
     for kind, a, b in model["steps"]:
         if kind == "replace":
             s = s.replace(a, b)
         else:
             s = re.sub(a, b, s)
     return s
+
+
+def _escape_by_eval(model: T.Dict[str, T.Any], s: str) -> str:
+    """The text handed to re.compile by the compiler function for the pattern text `s`, by evaluating its body."""
+    from sa.model import CannotFold, EvalError
+    fn = model["fn"]
+    prog = model.get("prog")
+    stubs = {"re.compile": lambda f, node: f(node.args[0]), "_replace_pattern_parts": lambda f, node: f(node.args[0])}
+    try:
+        ret, _ys = prog.run_body(fn, {fn.params[0]: s, "__strict__": True, "__stubs__": stubs})
+    except EvalError as ex:
+        return f"(?#raises {ex})("          # does not compile: reported as such
+    except (CannotFold, TypeError, AttributeError, KeyError, ValueError, IndexError) as ex:
+        raise AnalysisError(f"{fn.fq}: neither modelled nor evaluable ({type(ex).__name__}: {str(ex)[:80]})")
+    if not isinstance(ret, str):
+        raise AnalysisError(f"{fn.fq}: evaluation did not yield the compiled text")
+    return ret
 
 
 def _literal_of(units: T.Sequence[str]) -> str:
@@ -343,6 +362,10 @@ def run(ctx) -> None:
     ctx.rule("R4", "exempted characters are consumed by a dedicated step (bracket look-behind; backslash)")
     ctx.rule("R5", "rendering inverts the escapes and drops anchors")
     ctx.rule("R6", "pattern text from setup.cfg reaches the compiler verbatim (no %-interpolation in the INI reader)")
+    # text next to a part stays literal only if the part's regex (often an alternation) is wrapped in its own group
+    from checks.c02 import part_occurrences_rule
+    part_occurrences_rule(ctx, "R7")
+    render_order_rule(ctx, "R5")
     ctx.rule("R8", "a search pattern is refused by the config loader only for an unescaped `[` in first position (every other literal text is a legal pattern)")
     refused_patterns_rule(ctx, "R8")
     ctx.rule("R7", "a part name is substituted only where it does not overlap a part already substituted (text next to a part stays literal); the expression is searched in the unmodified line")
@@ -359,14 +382,24 @@ def run(ctx) -> None:
 
     engines = {"v2": "v2patterns._compile_pattern_re", "v1": "v1patterns._compile_pattern_re"}
     for eng, fq in engines.items():
-        model = _extract_model(ctx, fq)
+        try:
+            model = _extract_model(ctx, fq)
+        except AnalysisError as ex_model:
+            # the compiler function is not a pipeline of table-driven replaces any more: it is evaluated as a whole on every
+            # test string instead (re.compile and the part substitution abstracted), the pipeline rules R3 are not applicable
+            ctx.observe(f"{fq}: escape pipeline not modelled ({str(ex_model)[:90]}); R1 decided by evaluating the function on every test string, R3 not applicable")
+            model = {"fn": prog.function(fq), "eval": True, "prog": prog, "wrapped": None, "flags": None, "table_loops": True, "steps": [], "exempt": set("[]\\") if eng == "v2" else set(),
+                     "compile": prog.function(fq).node}
         fn = model["fn"]
         if model.get("wrapped") is not None:
             ctx.bad("R3", f"{fq}: the escaped pattern is edited again before it is compiled",
                     f"`{unparse(model['wrapped'])[:80]}`: the text that was escaped character by character is passed through another function; what is compiled "
                     f"is no longer the literal-preserving expression (e.g. a display formatter that protects blanks only: `#` then starts a comment under re.VERBOSE)",
                     loc=fn.loc(model["wrapped"]), witness={"pattern": "# version: {version}"}, what=f"{fq}: re.compile receives the escaped text itself")
-        ctx.check("R3", not model["flags"], f"{fq}: re.compile without flags (no VERBOSE/IGNORECASE)",
+        if model.get("eval"):
+            flagged = [c for c in ast.walk(fn.node) if isinstance(c, ast.Call) and unparse(c.func) == "re.compile" and (len(c.args) > 1 or c.keywords)]
+            ctx.check("R3", not flagged, f"{fq}: re.compile without flags (no VERBOSE/IGNORECASE)", f"{fq}: pattern compiled with regex flags", unparse(flagged[0]) if flagged else "", loc=fn.loc())
+        ctx.check("R3", model.get("eval") or not model["flags"], f"{fq}: re.compile without flags (no VERBOSE/IGNORECASE)",
                   f"{fq}: pattern compiled with regex flags", unparse(model["compile"]), loc=fn.loc(model["compile"]))
         if model["table_loops"]:
             ctx.ok("R3", f"{fq}: escapes by looping over the shared RE_PATTERN_ESCAPES table ({len(model['steps'])} steps after guard folding)")
@@ -632,3 +665,40 @@ def refused_patterns_rule(ctx, rule: str) -> None:
             continue
         ctx.check(rule, not wrong, f"_compile_v2_file_patterns: `{unparse(g.test)}` refuses exactly the patterns that start with `[`",
                   "config._compile_v2_file_patterns: a legal search pattern is refused (or a leading `[` accepted)", "; ".join(wrong[:3]), loc=fn.loc(g), witness={"pattern": "releases {version} \\["})
+
+
+def render_order_rule(ctx, rule: str) -> None:
+    """The renderer replaces part names by sequential str.replace, longest names first; among names of equal length the order is
+    that of PATTERN_PART_FIELDS (unpadded before zero-padded), which is what keeps a literal `0` in front of `YY` / `MM` literal -
+    as the recogniser reads it.  _format_part_values is evaluated with every field set and the order of its result compared."""
+    import types
+    from sa.model import Abstract, CannotFold, EvalError
+    prog = ctx.prog
+    fn = prog.function("v2version._format_part_values")
+    ctx.visit(fn.fq)
+    fields_tab = prog.const("v2patterns", "PATTERN_PART_FIELDS")
+    fmt_node = prog.const_node("v2patterns", "PART_FORMATS")
+    if not isinstance(fmt_node, ast.Dict):
+        ctx.observe("v2patterns.PART_FORMATS is not a dict display; render order not evaluated")
+        return
+    fmt_keys = [k.value for k in fmt_node.keys if isinstance(k, ast.Constant)]
+
+    class VInfo(Abstract):
+        def _asdict(self) -> T.Dict[str, T.Any]:
+            return {f: 1 for f in set(fields_tab.values())}
+    stub_mod = types.SimpleNamespace(PATTERN_PART_FIELDS=dict(fields_tab), PART_FORMATS={k: (lambda v, k=k: f"<{k}>") for k in fmt_keys})
+    try:
+        try:
+            got, _ys = prog.run_body(fn, {fn.params[0]: VInfo(), "v2patterns": stub_mod, "__strict__": True})
+        except EvalError as ex:
+            got = f"raises: {ex}"
+    except (CannotFold, TypeError, AttributeError, KeyError, ValueError, IndexError) as ex:
+        ctx.observe(f"v2version._format_part_values not evaluated ({type(ex).__name__}: {str(ex)[:80]})")
+        return
+    want = sorted(fields_tab, key=lambda p_: -len(p_))
+    names = [g[0] for g in got] if isinstance(got, list) else got
+    first_bad = next(((a, b) for a, b in zip(names, want) if a != b), None) if isinstance(names, list) else None
+    ctx.check(rule, names == want, "_format_part_values: parts are substituted longest first, equal lengths in PATTERN_PART_FIELDS order (evaluated)",
+              "v2version._format_part_values: the order in which part names are replaced in a pattern changed",
+              (f"`{first_bad[0]}` is now replaced before `{first_bad[1]}`: " if first_bad else f"{str(names)[:80]}: ") + "a literal `0` directly in front of an unpadded part (`copyright 20YY`) is "
+              "swallowed by the zero-padded part on rendering, while the recogniser still reads it as literal text", loc=fn.loc(), witness={"pattern": "copyright 20YY"})
